@@ -31,7 +31,7 @@ def gen(rng, tier, idx):
             marks[str(ty)] = {"title": "mark title %d" % ty, "stack": rk.chance(50),
                               "labels": {str(v): "lab %d" % v for v in rk.sample(range(1, 30), rk.randint(0, 4))}}
     desc = mgen.gen_world_desc(rng.derive("world"), nlooms=(1, 4), ncpus=(1, 4), nprocs=(1, 3), nthreads=(1, 3),
-                               models=models, marks=marks, ranks=rk.chance(50))
+                               models=models, marks=marks, ranks=rk.chance(50), skews=rk.chance(35))
     tasky = "nosv" in models or "nanos6" in models
     g = mgen.Gen(rng.derive("workload"), desc,
                  knobs={"w_state": 15, "w_aff": 10, "w_region": 30, "w_task": 25 if tasky else 0, "w_mark": 10 if marks else 0,
